@@ -1,6 +1,8 @@
 """Shared runner for C04 and C05: builds the event-loop driver on the simulated
 kernel (two pool modes), streams its log through the trace checker."""
 import subprocess
+import threading
+import time
 
 from . import core, evtrace
 
@@ -20,7 +22,9 @@ def build(ctx, nopool):
 
 def shard(a):
     """Run programs [first, first+count) and check them.  Returns dict."""
-    exe, seed, first, count, prop, mode = a
+    exe, seed, first, count, prop, mode = a[:6]
+    watchdog = a[6] if len(a) > 6 else 90
+    nhang = 0
     res = {'evals': 0, 'sigs': set(), 'alarms': [], 'stats': {}, 'samples': []}
     done = first
     guard = 0
@@ -29,6 +33,20 @@ def shard(a):
         p = subprocess.Popen([exe, str(seed), str(done), str(first + count - done)],
                              stdout=subprocess.PIPE, stderr=subprocess.PIPE,
                              env=core.child_env(), text=True, errors='replace')
+        killed = []
+        # No-progress watchdog: a single program takes milliseconds; if no new
+        # program starts for `watchdog` seconds the driver is stuck.
+        last = [time.time()]
+        stop = threading.Event()
+
+        def _watch(p=p, last=last, stop=stop, killed=killed):
+            while not stop.wait(3):
+                if time.time() - last[0] > watchdog:
+                    killed.append(1)
+                    p.kill()
+                    return
+        wd = threading.Thread(target=_watch, daemon=True)
+        wd.start()
         cur_lines = []
         last_idx = None
         pc = None
@@ -36,6 +54,7 @@ def shard(a):
         try:
             for line in p.stdout:
                 if line.startswith('P '):
+                    last[0] = time.time()
                     pc = evtrace.ProgramChecker(int(line.split()[1]))
                     last_idx = pc.idx
                     cur_lines = [line]
@@ -60,13 +79,27 @@ def shard(a):
         err = p.stderr.read()
         p.stderr.close()
         rc = p.wait()
+        stop.set()
         if rc == 0:
             break
+        if killed and count > 1:
+            # The watchdog fired: run the program that was in progress alone; only if it
+            # does not finish by itself is it a hang of that program.
+            idx = last_idx if last_idx is not None else done
+            r1 = shard((exe, seed, idx, 1, prop, mode, 45))
+            for k in ('evals',):
+                res[k] += r1[k]
+            res['alarms'] += r1['alarms']
+            done = idx + 1
+            nhang += any(k.startswith('hang') for (k, c, w) in r1['alarms'])
+            if nhang >= 1:
+                break       # the loop hangs: stop this shard, the alarm stands
+            continue
         if rc == 99:
             raise core.Inconclusive('c04 driver: ' + err[-1500:])
         # crashed / hung / deadlocked inside a program
         idx = last_idx if last_idx is not None else done
-        key = 'hang:poll-forever' if (rc == 3 and hangviol) else core.classify_crash(rc, err)
+        key = 'hang:poll-forever' if (rc == 3 and hangviol) else ('hang:watchdog' if killed else core.classify_crash(rc, err))
         if pc is not None:
             finish(res, pc, cur_lines, prop, seed, mode, partial=True)
         # A crash of the loop is attributed to both properties' checks: the
